@@ -175,6 +175,10 @@ OptNull ::= SEQUENCE { n NULL OPTIONAL, b INTEGER (0..255) OPTIONAL, c INTEGER (
 ChNull ::= CHOICE { n NULL, i INTEGER (0..255) }
 BitsT ::= BIT STRING
 ListNull ::= SEQUENCE { items SEQUENCE OF NULL, x INTEGER (0..255) }
+Blank ::= SEQUENCE { a INTEGER (0..255) OPTIONAL, b UTF8String OPTIONAL, l SEQUENCE OF BOOLEAN OPTIONAL }
+ListBlank ::= SEQUENCE { items SEQUENCE OF Blank, x INTEGER (0..255) }
+ChBlank ::= CHOICE { b Blank, i INTEGER (0..255) }
+SeqBlank ::= SEQUENCE { r Blank, o Blank OPTIONAL, c ChBlank, x BOOLEAN }
 END"
     );
 
@@ -367,6 +371,10 @@ END";
     zv_choice!(ChNull { N = 0, I = 1 });
     zv_tuple!(BitsT);
     zv_struct!(ListNull { items, x });
+    zv_struct!(Blank { a, b, l });
+    zv_struct!(ListBlank { items, x });
+    zv_choice!(ChBlank { B = 0, I = 1 });
+    zv_struct!(SeqBlank { r, o, c, x });
     zv_struct!(Nested { ll, x });
     zv_choice!(ChList { L = 0, I = 1 });
 
@@ -483,6 +491,10 @@ END";
                 19 => $f::<Nested>($($arg),*),
                 20 => $f::<ChList>($($arg),*),
                 21 => $f::<ListNull>($($arg),*),
+                22 => $f::<Blank>($($arg),*),
+                23 => $f::<ListBlank>($($arg),*),
+                24 => $f::<ChBlank>($($arg),*),
+                25 => $f::<SeqBlank>($($arg),*),
                 _ => vec![-1],
             }
         };
